@@ -270,10 +270,17 @@ def build_calls(tmpdir):
         out = []
         for _ in range(2):
             fo = io.BytesIO()
-            fa.writer(fo, pu, [{"shade": "LIGHT"}, None], sync_marker=b"0123456789abcdef")
-            out.append(fo.getvalue())
+            try:
+                fa.writer(fo, pu, [{"shade": "LIGHT"}, None], sync_marker=b"0123456789abcdef")
+                out.append(fo.getvalue())
+            except Exception as e:  # noqa: BLE001 - the second use must do what the first did
+                out.append(type(e).__name__)
         from fastavro.validation import validate
-        return {"file": out[0], "valid": validate({"shade": "DARK"}, pu, raise_errors=False), "__must__": out[0] == out[1]}
+        try:
+            valid = validate({"shade": "DARK"}, pu, raise_errors=False)
+        except Exception as e:  # noqa: BLE001
+            valid = type(e).__name__
+        return {"file": out[0], "valid": valid, "__must__": isinstance(out[0], bytes) and out[0] == out[1] and valid is True}
     add("write_kept_parsed_union", lambda: {}, write_parsed_union)
 
     def interleaved(fa, a, sh):
